@@ -510,17 +510,30 @@ def main(argv: Optional[List[str]] = None) -> int:
             )
     try:
         shown = 0
+        reported = []
         for v in unexplained:
             path = write_replay(pid, v)
-            if not args.no_confirm and shown < 3:
+            if not args.no_confirm and (shown < 3 or "Timeout: " in v["detail"]):
                 if not confirm_in_fresh_process(pid, path):
+                    if "Timeout: " in v["detail"]:
+                        # a time budget exceeded on a loaded machine: in a quiet fresh process the
+                        # same execution finishes and the property holds -> a cap, not a violation
+                        ctx.acc.cap(f"time budget exceeded under load for {v['fkey']} input={v['input']} (holds when replayed in a fresh process)")
+                        for f in (path, os.path.join(os.path.dirname(path), "test_" + os.path.basename(path).replace("-", "_").replace(".json", ".py"))):
+                            try:
+                                os.remove(f)
+                            except OSError:
+                                pass
+                        continue
                     raise HarnessError(
                         f"violation {v['fkey']} input={v['input']} does not reproduce in a fresh process ({path})"
                     )
             shown += 1
+            reported.append(v)
             print(f"  {v['fkey']} input={v['input']} (x{ctx.acc.vcount.get(v['fkey'], 1)}) :: {v['detail'][:400]}")
             print(f"VIOLATION property={pid} replay={path}")
             rc = 1
+        unexplained = reported
         write_evidence(
             ctx,
             len(unexplained),
